@@ -554,33 +554,38 @@ def r12_4(ctx, prog, crate):
         from lib.symexpr import show
         og = origins(gc, {"k": "move", "p": {"l": 0, "proj": [], "ty": ""}})
         fm = [o[1] for o in og if o[0] == "call"]
-        ok = len(og) == 1 and len(fm) == 1 and fm[0].callee.endswith("::find_map")
-        if ok:
-            srcs = gc.prov.op_src(fm[0].args[0])
-            ok = any(z.kind == "call" and z.a.endswith(("::iter_mut", "::iter")) for z in srcs) and {z.label() for z in srcs if z.kind == "param"} == {"param:" + gc.param_name(1)}
-        ctx.check(ok, "R12.4", ["get_children", "find_map-over-all-siblings"],
-                  "get_children is not `tree.iter_mut().find_map(..)` over all siblings (result from %s): a search that stops at the first sibling with the name can be stopped by a Leaf"
-                  % [o[1].callee if o[0] == "call" else o[0] for o in og], gc.where(0))
-        cl = [x for x in prog.children(gc) if x.kind == "Closure"]
-        if ctx.check(len(cl) == 1, "R12.4", ["get_children", "predicate"], "closures: %d" % len(cl), gc.where(0)):
-            x = cl[0]
-            ctx.saw(x)
-            sums = PathEval(x).run()
-            pidx = names_.index("Parent") if "Parent" in names_ else None
-            bad = []
-            some = 0
-            for sm in sums or []:
-                if sm.ret[0] == "adt" and sm.ret[2] == "Some":
-                    some += 1
-                    is_parent = any(a == ("discr", ("arg", 2, ()), pidx) and p for a, p in sm.conds)
-                    name_eq = any(a[0] == "bool" and a[1][0] == "site" and a[1][1].rsplit("::", 1)[-1] == "eq" and p and
-                                  ("arg", 2, ("raw_name",)) in a[1][3] and any(y[0] == "upvar" for y in a[1][3]) for a, p in sm.conds)
-                    payload = sm.ret[3][0] if sm.ret[3] else None
-                    kids = payload in (("ptr", (2, ("children",))), ("sptr", (2, ("children",))), ("arg", 2, ("children",)))
-                    if not (is_parent and name_eq and kids):
-                        bad.append("Some(%s) when %s" % (show(payload) if payload else "?", [a for a, p in sm.conds]))
-            ctx.check(sums is not None and some >= 1 and not bad, "R12.4", ["get_children", "children-of-the-parent-with-that-name"],
-                      "the predicate yields %s; expected Some(children) exactly for a Parent whose raw_name equals the module" % (bad or "no Some"), x.where(0))
+        if not fm and _get_children_loop_form(ctx, prog, gc, names_):
+            fm = None
+        if fm is None:
+            pass        # idiom 2 (explicit loop with early return) checked by the helper
+        else:
+          ok = len(og) == 1 and len(fm) == 1 and fm[0].callee.endswith("::find_map")
+          if ok:
+              srcs = gc.prov.op_src(fm[0].args[0])
+              ok = any(z.kind == "call" and z.a.endswith(("::iter_mut", "::iter")) for z in srcs) and {z.label() for z in srcs if z.kind == "param"} == {"param:" + gc.param_name(1)}
+          ctx.check(ok, "R12.4", ["get_children", "find_map-over-all-siblings"],
+                    "get_children is not `tree.iter_mut().find_map(..)` over all siblings (result from %s): a search that stops at the first sibling with the name can be stopped by a Leaf"
+                    % [o[1].callee if o[0] == "call" else o[0] for o in og], gc.where(0))
+          cl = [x for x in prog.children(gc) if x.kind == "Closure"]
+          if ctx.check(len(cl) == 1, "R12.4", ["get_children", "predicate"], "closures: %d" % len(cl), gc.where(0)):
+              x = cl[0]
+              ctx.saw(x)
+              sums = PathEval(x).run()
+              pidx = names_.index("Parent") if "Parent" in names_ else None
+              bad = []
+              some = 0
+              for sm in sums or []:
+                  if sm.ret[0] == "adt" and sm.ret[2] == "Some":
+                      some += 1
+                      is_parent = any(a == ("discr", ("arg", 2, ()), pidx) and p for a, p in sm.conds)
+                      name_eq = any(a[0] == "bool" and a[1][0] == "site" and a[1][1].rsplit("::", 1)[-1] == "eq" and p and
+                                    ("arg", 2, ("raw_name",)) in a[1][3] and any(y[0] == "upvar" for y in a[1][3]) for a, p in sm.conds)
+                      payload = sm.ret[3][0] if sm.ret[3] else None
+                      kids = payload in (("ptr", (2, ("children",))), ("sptr", (2, ("children",))), ("arg", 2, ("children",)))
+                      if not (is_parent and name_eq and kids):
+                          bad.append("Some(%s) when %s" % (show(payload) if payload else "?", [a for a, p in sm.conds]))
+              ctx.check(sums is not None and some >= 1 and not bad, "R12.4", ["get_children", "children-of-the-parent-with-that-name"],
+                        "the predicate yields %s; expected Some(children) exactly for a Parent whose raw_name equals the module" % (bad or "no Some"), x.where(0))
     ig = prog.body("entry::tree::EntryTree::insert_group", crate)
     if ctx.anchor("R12.4", "EntryTree::insert_group", 1 if ig else 0, 1):
         muts = [c.callee for c in ig.live_calls() if c.callee.startswith("std::vec::Vec::") and c.callee.rsplit("::", 1)[-1] in ("push", "insert", "remove", "retain", "clear", "pop", "truncate")]
@@ -620,6 +625,56 @@ def r12_4(ctx, prog, crate):
         names = [c.callee for c in ra.live_calls()]
         ctx.check("entry::tree::EntryTree::from_benches" in names and "entry::tree::EntryTree::insert_group" in names, "R12.4", ["run_action", "reads-both-lists"],
                   "run_action does not build the tree from BENCH_ENTRIES + generic benches and attach GROUP_ENTRIES", ra.where(0))
+
+
+def _get_children_loop_form(ctx, prog, gc, names_):
+    """`for sibling in tree.iter_mut() { if let Parent { raw_name, children, .. } = sibling { if *raw_name == module { return
+    Some(children) } } } None`: every Some(children) is dominated by the Parent arm of the item's discriminant and by the
+    true edge of the name comparison, and the only None is produced after the iteration is exhausted."""
+    lps = gc.loops
+    if len(lps) != 1:
+        return False
+    lp = lps[0]
+    nxt = [c for c in gc.live_calls() if c.bb in lp["body"] and c.callee.endswith("::next")]
+    if len(nxt) != 1:
+        return False
+    srcs = gc.prov.op_src(nxt[0].args[0])
+    if not (any(z.kind == "call" and z.a.endswith(("::iter_mut", "::iter")) for z in srcs) and {z.label() for z in srcs if z.kind == "param"} == {"param:" + gc.param_name(1)}):
+        return False
+    pidx = names_.index("Parent") if "Parent" in names_ else None
+    somes = [(bi, s) for bi, si, s in gc.stmts() if s["k"] == "assign" and s["p"]["l"] == 0 and s["rv"]["k"] == "agg" and s["rv"].get("variant") == "Some"]
+    nones = [(bi, s) for bi, si, s in gc.stmts() if s["k"] == "assign" and s["p"]["l"] == 0 and s["rv"]["k"] == "agg" and s["rv"].get("variant") == "None"]
+    ok = len(somes) >= 1 and len(nones) == 1 and nones[0][0] not in lp["body"]
+    for bi, s in somes:
+        # dominated by the Parent arm of a switch on the loop item's discriminant ...
+        dom_parent = False
+        for x, t, base in tables.discr_switches(gc):
+            if "EntryTree" in gc.local_ty(base) and x in lp["body"]:
+                arms, otherwise = tables.arm_targets(t)
+                pt = arms.get(pidx, otherwise)
+                others = [y for y in list(arms.values()) + [otherwise] if y != pt]
+                if gc.dominates(pt, bi) and pt not in others:
+                    dom_parent = True
+        # ... and by the true edge of an `==` on raw_name and the module parameter
+        dom_eq = False
+        for c in gc.live_calls():
+            if c.callee.rsplit("::", 1)[-1] == "eq" and c.bb in lp["body"]:
+                a = {z.label() for x_ in c.args for z in gc.prov.op_src(x_) if z.kind == "param"}
+                sw = None
+                for x2, t2 in gc.switches():
+                    if t2["discr"]["k"] in ("copy", "move") and not t2["discr"]["p"]["proj"] and t2["discr"]["p"]["l"] == c.dest["l"]:
+                        sw = (x2, t2)
+                if sw and "param:" + gc.param_name(2) in a:
+                    zero = [y[1] for y in sw[1]["arms"] if y[0] == "0"]
+                    t_t = sw[1]["otherwise"]
+                    if zero and gc.dominates(t_t, bi) and t_t != zero[0]:
+                        dom_eq = True
+        kids = any(z.kind == "call" and z.b == nxt[0].bb for z in gc.prov.op_src(s["rv"]["ops"][0]))
+        ok = ok and dom_parent and dom_eq and kids
+    ctx.check(ok, "R12.4", ["get_children", "children-of-the-parent-with-that-name"],
+              "get_children (loop form) does not return Some(children) exactly for a Parent whose raw_name equals the module, searching all siblings", gc.where(0))
+    ctx.ok("R12.4", "get_children|find_map-over-all-siblings (explicit loop)")
+    return True
 
 
 def r12_5(ctx, prog, crate):
